@@ -315,7 +315,7 @@ TrStep ==
               /\ rtlive' = IF Ok THEN rtlive \cup {E.c} ELSE rtlive \ {E.c}
               /\ rt' = ApplyUpds(IF Ok THEN (E.c :> ResOf(E.adj)) @@ rt ELSE rt, E.upd)
          [] E.ev = "Stop" -> rtlive' = rtlive \ {E.c} /\ rt' = ApplyUpds(rt, E.upd)
-         [] E.ev = "Remove" -> rtlive' = rtlive \ {E.c} /\ rt' = [x \in DOMAIN rt \ {E.c} |-> rt[x]]
+         [] E.ev = "Remove" -> rtlive' = rtlive \ {E.c} /\ rt' = ApplyBatches([x \in DOMAIN rt \ {E.c} |-> rt[x]], E.pushed)
          [] E.ev \in {"StopPod", "RemovePod"} ->
               /\ rtlive' = {c \in rtlive : ~(c \in DOMAIN ctrs /\ ctrs[c].pod = E.pod)} /\ rt' = rt
          [] E.ev = "Sync" ->
